@@ -433,6 +433,13 @@ func c20Round(sc *c20Scenario, mw *httputil.LogMiddleware, shared http.Handler, 
 			root.invs.Store(c20Goid(), inv)
 			inv.rec = httptest.NewRecorder()
 			ctx := context.WithValue(context.Background(), c20CtxKey{}, string(q.rest))
+			if i%3 == 2 {
+				// every third request arrives with a context that is already done (the client went
+				// away, a deadline passed): what the handler did and what is logged do not depend on it
+				var cancel context.CancelFunc
+				ctx, cancel = context.WithCancel(ctx)
+				cancel()
+			}
 			hr := (&http.Request{
 				Method:     string(q.method),
 				URL:        &url.URL{Path: "/p", RawQuery: "rest=" + hx(q.rest)},
